@@ -1389,6 +1389,11 @@ class ThirdCoreHexToFullCoreChanger(GeometryChanger):
         # remove the assemblies that were added when the conversion happened.
         if bool(self._newAssembliesAdded):
             for a in self._newAssembliesAdded:
+                # convert() put the location of every copy into the zone of its source
+                if len(r.core.zones) > 0:
+                    zone = r.core.zones.findZoneItIsIn(a)
+                    if zone is not None:
+                        zone.removeLoc(a.getLocation())
                 r.core.removeAssembly(a, discharge=False)
 
             r.core.symmetry = geometry.SymmetryType.fromAny(
